@@ -106,4 +106,53 @@ CHECKS = {
                 "a synthetic result, a label or a listing.",
         "assumptions": COMMON_ASSUME,
     },
+    "C09": {
+        "legs": legs_simple("props", "^TestC09$", 14, 16),
+        "rule": "rapid: generated certificates (corpus, 0-3 DER edits, openers) whose issuer differs from the subject x a replacement signature BIT STRING of the same length "
+                "(random, all-zero, all-one, one bit flipped, another corpus certificate's signature of equal length, a fresh well-formed ECDSA-Sig-Value, reversed). Oracle: "
+                "identical status and details for every lint, SelfSigned false on both. Non-trivial = signature bits actually differ and >=1 lint body executed; distinct by (DER, DER').",
+        "assumptions": COMMON_ASSUME + ["a variant the parser rejects is counted, not judged"],
+    },
+    "C16": {
+        "legs": legs_simple("props", "^TestC16$", 14, 16),
+        "rule": "enumerated: every divisor 2..769 times a 1031-bit prime, bit lengths {1,2,8,512,1023..1025,2040,2047..2049,2056,3071..3073,4096} x exponents {1,2,3,4,65535..65538,2^31-1,2^62+1} "
+                "(a quarter of the base/threshold/exponent grid per seed), genuinely self-signed roots built from 10 committed keys of 1023..4096 bits; rapid: moduli near thresholds, "
+                "uniform 2..4200 bits, multiples of 8 +-1, even, primes around 752 x prime, products of two primes; exponents incl. 2^63-1; Fermat: products of primes whose distance is "
+                "aimed at 0..4000 rounds, Rounds configured at need-1..need+2. Keys are written into the SPKI of home certificates of the 14 lints. Oracle: math/big predicates, applied "
+                "where the reference lifecycle says the lint executed. Non-trivial = (lint, bit length within 1 of a threshold) or (lint, key with the finding) or a Fermat (N, Rounds) case.",
+        "assumptions": COMMON_ASSUME + ["Fermat Rounds <= 2000", "perfect squares are excluded from the Fermat must-report direction"],
+    },
+    "C17": {
+        "legs": legs_simple("props", "^TestC17$", 14, 16),
+        "rule": "rapid: certificates whose SAN is rebuilt from 2-8 GeneralNames of every arm (compliant, non-compliant, unparseable; dictionary + corpus donors) x a permutation "
+                "(adjacent transposition, reversal, rotation, Fisher-Yates); generated certificates without duplicate extension OIDs x a permutation of the extension list. Self-signed "
+                "bases are re-signed on both sides. Oracle: identical status vector. Non-trivial = non-identity permutation of a pair with >=1 finding; distinct by (DER, DER').",
+        "assumptions": COMMON_ASSUME + ["pairs that the parser accepts in one order only are counted, not judged"],
+    },
+    "C18": {
+        "legs": legs_simple("props", "^TestC18$", 8, 16),
+        "rule": "the TLD table is read as data with go/parser; enumerated in both tiers: well-formedness of every entry, and HasValidTLD for every entry x {delegation, removal} x "
+                "{-1s,0,+1s} x 3 spellings x 3 zones; rapid: labels from table keys (any case), near misses, fixed internal names, random strings x domain shapes x instants (near a "
+                "boundary or uniform 1980-2040); certificates: home objects of e_dnsname_not_valid_tld with generated SAN/CN and notBefore. Oracle: integer model of the statement "
+                "(ASCII case-insensitive). Non-trivial = (entry, boundary, side, spelling), a missing label, or a generated certificate.",
+        "assumptions": ["labels containing non-ASCII bytes are not judged ('case-insensitive' is ambiguous for them)"],
+    },
+    "C19": {
+        "legs": legs_simple("props", "^TestC19$", 8, 16),
+        "rule": "enumerated in both tiers: first/last/one-below/one-above address of each of 22 special-purpose blocks written from the RFCs, every prefix length 0..32/128 around the "
+                "first, middle and last address of every block in 4-byte and IPv4-mapped form (so every super-net and sub-net), 26 public anchors; rapid: addresses near blocks, "
+                "perturbed anchors, uniform v4/v6 x any prefix; certificates with generated iPAddress SANs, IP common names and permitted IP name constraints on home objects. "
+                "Oracle: block member => reserved; anchor => public; forms agree; /32 or /128 network == address test; contains a reserved witness => intersects; super-net "
+                "monotonicity; lints == function results. Non-trivial = block edge address, super-net of a block, address inside a block, or a generated certificate.",
+        "assumptions": ["the model blocks are the ones named in the statement; the implementation may reserve more"],
+    },
+    "C20": {
+        "legs": legs_simple("props", "^TestC20$", 14, 16),
+        "rule": "rapid content placed so both members of a pair see the same thing: DNS names (dictionary / random) with CN empty or equal to a SAN entry; identical GeneralNames of all "
+                "arms (incl. hostile bytes) in SAN and IAN; issuer DN = subject DN built from generated RDNs (blanks, multi-valued, every string type); AIA URLs (internal, reserved, odd "
+                "hosts) on certificates in both TLS and S/MIME scope; validity lengths around 397/398 days +-2 s; given name / surname of 1..33000 runes; plus generic generated "
+                "certificates. 23 pairs (20 twins, 3 companions). A pair is judged only when the reference lifecycle shows both bodies executed and the content predicate holds. "
+                "Non-trivial = judged pair with >=1 finding; distinct by (pair, DER).",
+        "assumptions": COMMON_ASSUME + ["'same content' = CN empty/IP/in SAN; exactly one SAN and one IAN extension with identical values; RawSubject == RawIssuer"],
+    },
 }
